@@ -28,7 +28,7 @@ def run(tier, seed, replay=None):
     build = common.build_repo("rel")
     work = common.new_workdir("c07")
     n = 120 if tier == "quick" else 1200
-    cases = harness.gen_cases(seed, 7, n, lambda rng, i: gen.gen_opt_program(rng, refs=(i % 3 == 2)))
+    cases = harness.gen_cases(seed, 7, n, lambda rng, i: gen.gen_opt_program(rng, refs=(i % 3 == 2), exprs=(i % 3 == 1)))
     results = harness.compile_cases(build, work, cases)
     # what does the spec say about references into omitted groups?
     pre = {}
@@ -60,10 +60,10 @@ def run(tier, seed, replay=None):
         d = harness.save_case(rep, r, r["name"])
         rep.violation(r["name"], {"case": r["name"], "gdl": r["prog"].gdl(), "errors": [l for l in r["err"].split("\n") if "error" in l][:5],
                                   "spec": exp[:5], "meaning": "the program was rejected although no alternative refers to an omitted item (or with an unexpected diagnostic)"})
-    outs2 = harness.drive(acc, ["expand", "c02", "c06", "c04"])
+    outs2 = harness.drive(acc, ["expand", "c02", "c06", "c04", "c01"])
     for r, o in zip(acc, outs2):
         stats["fonts"] += 1
-        fl = [l for c in ("expand", "c02", "c06", "c04") for l in o[c] if not (l.startswith("ok") or " ok " in l)]
+        fl = [l for c in ("expand", "c02", "c06", "c04", "c01") for l in o[c] if not (l.startswith("ok") or " ok " in l)]
         refo = [l for l in o["expand"] if l.startswith("REFOMITTED")]
         if refo:
             fl.append("a reference to an omitted item was accepted without diagnostic 1103")
